@@ -440,6 +440,151 @@ fn prop_bytes(c: &ByteCase, known: &[String], st: &mut Stats) -> Result<(), Stri
     with_config!(c.circuit.config.keccak, bytes, c, known, st)
 }
 
+// ------------------------------------------------------------------------------------------
+// STARK verification entry point
+// ------------------------------------------------------------------------------------------
+
+#[derive(Clone, Debug, Serialize, Deserialize)]
+pub struct StarkCase {
+    pub stark: crate::gen::stark::RawStark,
+    pub edits: Vec<RawEdit>,
+    pub exhaustive: bool,
+}
+
+fn stark_case(n: usize, exhaustive: bool) -> BoxedStrategy<StarkCase> {
+    bx((crate::gen::stark::raw_stark(), prop::collection::vec(raw_edit(), n..=n)).prop_map(move |(stark, edits)| StarkCase { stark, edits, exhaustive }))
+}
+
+fn stark_values_shape<const COLS: usize, const PIS: usize>(
+    c: &StarkCase,
+    el: &crate::gen::stark::ElabStark,
+    known: &[String],
+    st: &mut Stats,
+) -> Result<(), String> {
+    use crate::circuit::PC;
+    use crate::gen::stark::*;
+    use starky::proof::StarkProofWithPublicInputs;
+    use starky::prover::prove;
+    use starky::verifier::verify_stark_proof;
+    let stark = GenStark::<COLS, PIS> { def: std::sync::Arc::new(el.def.clone()) };
+    let proof: StarkProofWithPublicInputs<F, PC, D> = prove::<F, PC, GenStark<COLS, PIS>, D>(
+        stark.clone(),
+        &el.config,
+        trace_columns(&el.trace, COLS),
+        &el.pis,
+        None,
+        &mut plonky2::util::timing::TimingTree::default(),
+    )
+    .map_err(|e| format!("honest stark prove failed: {:#}", e))?;
+    verify_stark_proof(stark.clone(), proof.clone(), &el.config, None).map_err(|e| format!("honest stark proof rejected: {:#}", e))?;
+    let chash = hash_of(&c.stark);
+    let mut tree = to_tree(&proof);
+    let orig = tree.clone();
+    let run = |t: &Value, desc: &str, st: &mut Stats| -> Result<(), String> {
+        let p: StarkProofWithPublicInputs<F, PC, D> = match Deserialize::deserialize(t) {
+            Ok(p) => p,
+            Err(_) => {
+                st.label("not_constructible");
+                return Ok(());
+            }
+        };
+        st.evals(1);
+        match catch(|| verify_stark_proof(stark.clone(), p, &el.config, None)) {
+            Ok(Ok(())) => {
+                // `ctl_zs_first: Some([])` and `None` are two encodings of "no cross-table openings"
+                let mut tn = t.clone();
+                if let Some(v) = tn.pointer_mut("/proof/openings/ctl_zs_first") {
+                    if v.as_array().map(|a| a.is_empty()).unwrap_or(false) {
+                        *v = Value::Null;
+                    }
+                }
+                if !tree_field_eq(&tn, &orig) {
+                    // a constant trace makes every re-randomised transcript valid; only unread cap entries differ then
+                    let nonconstant = (0..COLS).any(|j| el.trace.iter().any(|r| r[j] != el.trace[0][j]));
+                    if desc.starts_with("shape") || nonconstant && !desc.starts_with("range:alias") {
+                        return Err(format!("verify_stark_proof returned Ok for a malformed value ({})", desc));
+                    }
+                    st.label("ok_for_degenerate_instance");
+                }
+            }
+            Ok(Err(_)) => {}
+            Err(pn) => judge_panic("verify_stark_proof", &pn, known, st)?,
+        }
+        Ok(())
+    };
+    let conts = containers(&tree);
+    let mut plan: Vec<(usize, ShapeEdit)> = vec![];
+    if c.exhaustive || conts.len() * 4 <= c.edits.len() {
+        for i in 0..conts.len() {
+            for e in ShapeEdit::ALL {
+                plan.push((i, e));
+            }
+        }
+    } else {
+        for r in &c.edits {
+            plan.push((frac32(r.pos, conts.len()), ShapeEdit::ALL[r.kind as usize % 4]));
+        }
+    }
+    for (i, e) in plan {
+        let (path, _, _) = &conts[i];
+        let class = class_of(path);
+        let old = get(&tree, path).cloned().unwrap();
+        if !edit_shape(&mut tree, path, e) {
+            continue;
+        }
+        st.label(&format!("stark_shape:{}", class));
+        st.nontrivial(&(chash, "stark_shape", i, e.name()));
+        let r = run(&tree, &format!("shape {} {}", path_string(path), e.name()), st);
+        *get_mut(&mut tree, path).unwrap() = old;
+        r.map_err(|m| format!("{} [stark shape edit {} at {}]", m, e.name(), path_string(path)))?;
+    }
+    // optional components set to null / removed (auxiliary caps, quotient cap, optional openings)
+    for ptr in ["/proof/quotient_polys_cap", "/proof/auxiliary_polys_cap", "/proof/openings/quotient_polys", "/proof/openings/auxiliary_polys", "/proof/openings/auxiliary_polys_next", "/proof/openings/ctl_zs_first"] {
+        if let Some(v) = tree.pointer_mut(ptr) {
+            let old = v.clone();
+            *v = if old.is_null() { json!([]) } else { Value::Null };
+            st.label("stark_option_toggled");
+            st.nontrivial(&(chash, "option", ptr));
+            let r = run(&tree, &format!("shape option {}", ptr), st);
+            *tree.pointer_mut(ptr).unwrap() = old;
+            r.map_err(|m| format!("{} [option toggled at {}]", m, ptr))?;
+        }
+    }
+    let leaves = numeric_leaves(&tree);
+    for r in c.edits.iter().take(c.edits.len() / 2 + 1) {
+        let i = frac32(r.pos.rotate_left(7), leaves.len());
+        let path = &leaves[i];
+        let old = get(&tree, path).cloned().unwrap();
+        let oldv = old.as_u64().unwrap_or(0);
+        let (newv, desc) = match r.kind % 4 {
+            0 if oldv < (u64::MAX - P) => (oldv + P, "alias"),
+            1 => (u64::MAX, "max"),
+            2 => (P, "p"),
+            _ => (r.val ^ 0x8000_0000_0000_0000, "big"),
+        };
+        *get_mut(&mut tree, path).unwrap() = Value::from(newv);
+        st.label(&format!("stark_range:{}", desc));
+        st.nontrivial(&(chash, "stark_range", i, desc));
+        let r2 = run(&tree, &format!("range:{} {}", desc, path_string(path)), st);
+        *get_mut(&mut tree, path).unwrap() = old;
+        r2.map_err(|m| format!("{} [stark range edit {} at {}]", m, desc, path_string(path)))?;
+    }
+    Ok(())
+}
+
+fn prop_stark(c: &StarkCase, known: &[String], st: &mut Stats) -> Result<(), String> {
+    let lim = crate::gen::stark::StarkLimits {
+        max_log_n: 5,
+        min_queries: 2,
+        max_queries: 8,
+        max_pow: 4,
+        min_degree: 1,
+        ..Default::default()
+    };
+    let el = crate::gen::stark::elaborate_stark(&c.stark, &lim);
+    crate::with_stark_shape!(el.shape, stark_values_shape, c, &el, known, st)
+}
+
 pub fn run(ctx: &mut Ctx) {
     ctx.rule = "valid proof of a generated circuit x (shape edit of a container | out-of-range number | map-key edit) handed to \
                 verify / compress / verify_compressed / decompress, and valid encodings x byte mutation (truncate, bit flip, byte set, \
@@ -465,4 +610,7 @@ pub fn run(ctx: &mut Ctx) {
     let k = known.clone();
     let nb_muts_c = ctx.tier.pick(200, 1500);
     ctx.run_sub("compressed_bytes", nb_cases, 14, move || byte_case(max_ops, nb_muts_c, true), move |c, st| prop_bytes(c, &k, st));
+    let k = known.clone();
+    let (ns, nse) = ctx.tier.pick((140, 160), (3000, 400));
+    ctx.run_sub("stark_values", ns, 14, move || stark_case(nse, thorough), move |c, st| prop_stark(c, &k, st));
 }
